@@ -154,7 +154,7 @@ def _arr_cmp(eng, st, args, dty, callee, m):
 def _map_prepare(eng, m, k):
     """make sure the (possibly lazily empty) map has a key sort / present array"""
     if m.ksort is None:
-        return VMap(k.sort(), z3.K(k.sort(), z3.BoolVal(False)), None, m.count if m.count is not None else bv(0, 64), m.cap)
+        return VMap(k.sort(), z3.K(k.sort(), z3.BoolVal(False)), None, m.count if m.count is not None else bv(0, 64), m.cap, m.enum)
     if m.ksort != k.sort():
         raise SymError(f"map key sort mismatch {m.ksort} vs {k.sort()}")
     return m
@@ -235,7 +235,7 @@ def _map_put(eng, st, args, dty, callee, m):
     cnt = simp(mp.count + z3.If(pres, bv(0, 64), bv(1, 64)))
     if mp.cap is not None:
         eng.assume(z3.Implies(z3.And(st.pc, z3.Not(pres)), z3.ULT(mp.count, mp.cap)))
-    eng.store(st, ref, VMap(mp.ksort, simp(z3.Store(mp.present, k, z3.BoolVal(True))), newval, cnt, mp.cap))
+    eng.store(st, ref, VMap(mp.ksort, simp(z3.Store(mp.present, k, z3.BoolVal(True))), newval, cnt, mp.cap, mp.enum))
     if old is None or z3.is_false(pres):
         return none()
     return option(pres, old)
@@ -249,7 +249,7 @@ def _map_pop(eng, st, args, dty, callee, m):
     pres = simp(z3.Select(mp.present, k))
     old = _map_select(mp, k)
     cnt = simp(mp.count - z3.If(pres, bv(1, 64), bv(0, 64)))
-    eng.store(st, ref, VMap(mp.ksort, simp(z3.Store(mp.present, k, z3.BoolVal(False))), mp.val, cnt, mp.cap))
+    eng.store(st, ref, VMap(mp.ksort, simp(z3.Store(mp.present, k, z3.BoolVal(False))), mp.val, cnt, mp.cap, mp.enum))
     if old is None or z3.is_false(pres):
         return none()
     return option(pres, old)
@@ -266,7 +266,7 @@ def _map_len(eng, st, args, dty, callee, m):
 @summary(r"^" + MAP_RX + r"clear$", "map clear")
 def _map_clear(eng, st, args, dty, callee, m):
     ref, mp = _load_map(eng, st, args[0])
-    eng.store(st, ref, VMap(mp.ksort, z3.K(mp.ksort, z3.BoolVal(False)) if mp.ksort is not None else None, mp.val, bv(0, 64), mp.cap))
+    eng.store(st, ref, VMap(mp.ksort, z3.K(mp.ksort, z3.BoolVal(False)) if mp.ksort is not None else None, mp.val, bv(0, 64), mp.cap, mp.enum))
     return UNIT
 
 
@@ -308,5 +308,5 @@ def _entry_or_insert(eng, st, args, dty, callee, m):
     newv = dv if (cur is None or z3.is_false(pres)) else merge(pres, cur, dv)
     newval = _map_store(mp, k, newv)
     cnt = simp(mp.count + z3.If(pres, bv(0, 64), bv(1, 64)))
-    eng.store(st, ref, VMap(mp.ksort, simp(z3.Store(mp.present, k, z3.BoolVal(True))), newval, cnt, mp.cap))
+    eng.store(st, ref, VMap(mp.ksort, simp(z3.Store(mp.present, k, z3.BoolVal(True))), newval, cnt, mp.cap, mp.enum))
     return VRef(ref.root, ref.path + (("k", k),), True)
